@@ -837,6 +837,15 @@ func (c *Ctx) modularCall(fi *FuncInfo, recv Value, args []Value, e *ast.CallExp
 	for _, en := range sp.Ensures {
 		c.st.assume(sc.specEvalIn(fi.Pkg, en.Expr, c.st, pre, vars))
 	}
+	if !c.spec {
+		// remember the state right after this call (spec form aftercall(f, e))
+		snap := c.st.Clone()
+		snap.after = nil
+		if c.st.after == nil {
+			c.st.after = map[string]*State{}
+		}
+		c.st.after[fi.Decl.Name.Name] = snap
+	}
 	return res
 }
 
